@@ -403,9 +403,13 @@ def conn_level_messages(run):
                     st.advance()
                     if step > block_until and rng.random() < 0.2:
                         block_until = step + rng.choice([6, 8, 12])     # acks lost for longer than the re-send interval
+                    if step == 2:
+                        block_until = 10                # every stream: a fragmented guaranteed message whose acks are lost
                     st.back_block = step <= block_until
                     r = rng.random()
-                    if r < 0.25:
+                    if step == 2:
+                        st.app_send(2500, -1)
+                    elif r < 0.25:
                         st.app_send(rng.choice([1500, 2500, 3000]), rng.choice([1, -1, -1, 0]))     # fragmented
                     elif r < 0.7:
                         for _ in range(rng.randrange(1, 3)):
@@ -423,13 +427,13 @@ def conn_level_messages(run):
                         check(st, ref, held.pop(rng.randrange(len(held))), "late", step)
                     st.tick_receiver()
                 nsess += 1
-                if not any(f for f in st.gm.flags):
-                    raise RuntimeError("message-window stream without a retransmitted message: generator broken")
             finally:
                 st.finish()
             run.count("message_copies_flagged", sum(1 for f in st.gm.flags if f))
             run.count("fragment_messages_seen", sum(1 for ms in st.msg_of.values() for (_, ty, _) in ms if ty == 7))
     run.count("conn_level_message_sessions", nsess)
+    if not run.dist.get("message_copies_flagged"):
+        raise RuntimeError("message-window streams without a single retransmitted message: generator broken")
     logging.disable(logging.NOTSET)
 
 
